@@ -21,17 +21,17 @@ import (
 // ---- run description (what a replay file contains) -------------------------------------
 
 type Op struct {
-	Kind   string     `json:"op"` // Convert PkgConvert Parse Render ParseRender RenderPre ParseOnly Walk
-	Doc    int        `json:"doc"`
-	Tree   int        `json:"tree,omitempty"` // Parse: slot written; Render/Walk: slot read
-	Stack  string     `json:"stack,omitempty"`
-	Ctx    bool       `json:"ctx,omitempty"`    // delegating parser.Context wrapper
+	Kind  string `json:"op"` // Convert PkgConvert Parse Render ParseRender RenderPre ParseOnly Walk
+	Doc   int    `json:"doc"`
+	Tree  int    `json:"tree,omitempty"` // Parse: slot written; Render/Walk: slot read
+	Stack string `json:"stack,omitempty"`
+	Ctx   bool   `json:"ctx,omitempty"` // delegating parser.Context wrapper
 	// CtxPlain: the caller passes its own parser.NewContext() (not wrapped) and reads it after
 	// the call (references, ids), as callers that fetch metadata from the context do
-	CtxPlain bool `json:"ctx_plain,omitempty"`
-	Reader bool       `json:"reader,omitempty"` // delegating text.Reader wrapper (Parse paths)
-	Fault  *FaultPlan `json:"fault,omitempty"`
-	Aux    *Config    `json:"aux,omitempty"` // AuxConvert: configuration of the other instance
+	CtxPlain bool       `json:"ctx_plain,omitempty"`
+	Reader   bool       `json:"reader,omitempty"` // delegating text.Reader wrapper (Parse paths)
+	Fault    *FaultPlan `json:"fault,omitempty"`
+	Aux      *Config    `json:"aux,omitempty"` // AuxConvert: configuration of the other instance
 	// Reuse: the caller reads every document into ONE buffer it reuses from call to call
 	// (as a server reading request bodies does): the source handed to goldmark is that
 	// buffer, overwritten by the next such call. Only for calls that do not keep a tree.
@@ -100,14 +100,14 @@ type RunSpec struct {
 	Clients   [][]Op   `json:"clients"`
 
 	// sched only
-	GoMaxProcs int    `json:"gomaxprocs,omitempty"` // of the worker process that found it (sync.Pool and the Go scheduler depend on it)
-	Deep      bool    `json:"deep,omitempty"` // built against the instrumented copy (scheduling points inside goldmark)
-	Fresh     bool    `json:"fresh_instance,omitempty"`
-	Cold      bool    `json:"cold_start,omitempty"`
+	GoMaxProcs int  `json:"gomaxprocs,omitempty"` // of the worker process that found it (sync.Pool and the Go scheduler depend on it)
+	Deep       bool `json:"deep,omitempty"`       // built against the instrumented copy (scheduling points inside goldmark)
+	Fresh      bool `json:"fresh_instance,omitempty"`
+	Cold       bool `json:"cold_start,omitempty"`
 	// RefAfter: the expected results (each call alone on a fresh instance) are computed after
 	// the schedule has run, not before, so that the workers, not the reference, are the first
 	// in the process to see this run's documents (package-level caches are cold for them)
-	RefAfter bool `json:"ref_after,omitempty"`
+	RefAfter  bool    `json:"ref_after,omitempty"`
 	Policy    string  `json:"policy,omitempty"`
 	PolicyArg int     `json:"policy_arg,omitempty"`
 	SchedSeed uint64  `json:"sched_seed,omitempty"`
@@ -247,7 +247,7 @@ type Env struct {
 	p    parser.Parser
 	r    renderer.Renderer
 	docs [][]byte
-	orig [][]byte                     // pristine copies of docs: what the caller asked to convert
+	orig [][]byte // pristine copies of docs: what the caller asked to convert
 	// other instances created during the run (AuxConvert, RenderOther), one table per client so
 	// that concurrent clients never share harness state
 	aux [16]map[string]goldmark.Markdown
@@ -609,6 +609,9 @@ type RefModel struct {
 	rng       *Rng
 	Unstable  *Violation // set when a recomputation differed
 	withTrees bool       // compute via Parse+Render and keep heading counts
+	// quiet: no recomputation of memoised entries (runs that count calls exactly: a recomputed
+	// reference is a conversion, too, and would shift the count by a seeded but arbitrary amount)
+	quiet bool
 }
 
 func NewRefModel(seed uint64) *RefModel {
@@ -629,7 +632,7 @@ func refCompute(cfg Config, src []byte) (out []byte, err error, pan string) {
 func (m *RefModel) Get(cfg Config, src []byte) *refEntry {
 	k := refKey{cfg.Key(), string(src)}
 	if e, ok := m.m[k]; ok {
-		if m.rng.Intn(50) == 0 {
+		if !m.quiet && m.rng.Intn(50) == 0 {
 			m.recheck++
 			out, err, pan := refCompute(cfg, src)
 			if (err != nil || pan != "" || !bytes.Equal(out, e.out)) && m.Unstable == nil {
@@ -666,6 +669,20 @@ func firstLine(s string) string {
 		}
 	}
 	return s
+}
+
+// inspectErr does what a caller does with the error it got back: print it and ask whether it
+// is (or wraps) the writer's error. A non-nil error that panics when touched (a typed nil
+// pointer in an error interface) is reported, not allowed to take the harness down.
+func inspectErr(err, target error) (is bool, text string, pan string) {
+	defer func() {
+		if r := recover(); r != nil {
+			pan = fmt.Sprint(r)
+		}
+	}()
+	text = err.Error()
+	is = errors.Is(err, target)
+	return
 }
 
 // ---- the C14 oracle (also used wherever an operation carries a fault plan) -------------
@@ -713,9 +730,14 @@ func checkFaulted(res *OpResult, R []byte) *Violation {
 			return &Violation{Class: "error-swallowed", Want: R, Got: all,
 				Detail: fmt.Sprintf("writer returned an error on call %d of %d but nil was returned to the caller", s.firstFail, s.calls)}
 		}
-		if !errors.Is(res.Err, s.E) {
+		is, text, pan := inspectErr(res.Err, s.E)
+		if pan != "" {
+			return &Violation{Class: "error-unusable", Want: R, Got: all,
+				Detail: "the returned error is non-nil but panics when it is inspected (Error / errors.Is): " + pan}
+		}
+		if !is {
 			return &Violation{Class: "error-not-wrapped", Want: R, Got: all,
-				Detail: fmt.Sprintf("returned error %q neither is nor wraps the writer's error %q", res.Err, s.E)}
+				Detail: fmt.Sprintf("returned error %q neither is nor wraps the writer's error %q", text, s.E)}
 		}
 		pre := all[:s.preLen]
 		if !bytes.HasPrefix(R, pre) {
